@@ -7,7 +7,7 @@ import Driver.MergeDecode
 import NriModel.Ledger
 import NriModel.Overlay
 
-open Lean Drv Nri Nri.Api Nri.Result Nri.Overlay
+open Lean Drv Nri Nri.NApi Nri.Result Nri.Overlay
 
 namespace Drv.Merge
 
